@@ -299,7 +299,8 @@ func (e *Enc) assumeLeafInv(t T, l Leaf, all []T, sh []Leaf, i int) {
 		}
 		e.assert(And(e.cmpS("<=", IntLit64(IntS, 0), t), T{BoolS, app("<", t.E, e.top().E)}))
 		z := IntLit64(off.S, 0)
-		e.assert(And(e.sle(z, off), e.sle(z, ln), e.sle(ln, cp), e.sle(cp, e.maxLen())))
+		// (backing-array positions are small numbers: off + cap cannot wrap around)
+		e.assert(And(e.sle(z, off), e.sle(off, e.maxLen()), e.sle(z, ln), e.sle(ln, cp), e.sle(cp, e.maxLen())))
 		e.assert(Implies(Eq(t, IntLit64(IntS, 0)), And(Eq(cp, z), Eq(off, z))))
 		return
 	case "off", "len", "cap":
